@@ -27,7 +27,7 @@ tvars == <<blocks, vcache, res, l, hdr, obs>>
 
 TNoBlock == "none"
 TGenesis == "b0"
-TraceNodes == {"w", "warm", "cold", "sib", "conf", "twice", "alt0", "alt1", "n0", "n1"}
+TraceNodes == {"w", "warm", "cold", "sib", "conf", "twice", "alt0", "alt1", "late", "n0", "n1"}
 TraceMasters == 1..6
 ev == Trace[l]
 IsEvent(name) == l <= Len(Trace) /\ Trace[l].e = name
